@@ -37,6 +37,7 @@ CHECK_DEADLOCK FALSE
 INVS = {
     "loaded": "LoadedInSupport LoadedPositive LoadedExact",
     "vose": "VoseConserved VoseNoSmallLeft VoseTableOK",
+    "aliaspos": "APUniform APMarginal",
     "dice": "DiceInRange DiceExact",
     "trials": "TrialsRange TrialsPmfAtOne",
     "cases": "CasesWellFormed CaseIdsDistinct EverySamplerHasACase",
@@ -48,12 +49,14 @@ TIERS = {
                   vose=dict(nmax=4, den=40, step=4, deltas="{}"),
                   vose_tol=dict(nmax=3, den=2000, step=500, deltas="{1, 2}"),
                   cases=dict(nmax=3, den=2000, step=500, deltas="{1}"),
+                  aliaspos=dict(nmax=3, den=12, step=3, deltas="{}"),
                   n_big=1 << 27, t_big=8, n_cont=1 << 21, n_disc=1 << 20, maxtrials=7),
     "thorough": dict(loaded=dict(nmax=4, den=2000, step=250, deltas="{1, 2}"),
                      vose=dict(nmax=5, den=40, step=4, deltas="{}"),
                      vose_tol=dict(nmax=4, den=2000, step=250, deltas="{1, 2}"),
                      cases=dict(nmax=4, den=2000, step=250, deltas="{1}"),
-                     n_big=1 << 30, t_big=16, n_cont=1 << 24, n_disc=1 << 23, maxtrials=10),
+                     aliaspos=dict(nmax=4, den=12, step=2, deltas="{}"),
+                     n_big=1 << 30, t_big=16, n_cont=1 << 26, n_disc=1 << 25, maxtrials=10),
 }
 
 
@@ -206,18 +209,25 @@ def judge(v, trace, tag, plan_of_line, mode, seed):
         v.notes.append(msg)
         print(msg)
     v.cov["drift"] = v.cov.get("drift", 0) + sum(drifts.values())
-    for rj in [{"line": ln, "rule": rule, "detail": diag} for kind, ln, rule, diag in prints if kind == "REJECT"]:
-        if rj["rule"].startswith("harness-"):
-            raise vlib.MachineryError("trace spec reports a harness problem: %s" % rj)
+    groups = {}
+    for kind, ln, rule, diag in prints:
+        if kind != "REJECT":
+            continue
+        if rule.startswith("harness-"):
+            raise vlib.MachineryError("trace spec reports a harness problem: line %d %s %s" % (ln, rule, diag[:400]))
         try:
-            e = json.loads(tl[rj["line"] - 1])
+            e = json.loads(tl[ln - 1])
         except Exception:
             e = {}
-        samp = e.get("s", "?")
-        pl = plan_of_line(e)
-        rp = vlib.save_replay(PID, "viol_%s_%s_%s.plan" % (mode, rj["rule"][:40], e.get("id", str(rj["line"]))),
-                              "# mode %s\n# seed %d\n%s\n" % (mode, seed, pl))
-        v.violation("C16|%s|%s" % (rj["rule"], samp), rp, "case %s: %s" % (e.get("id", "?"), rj["detail"][:500]))
+        sig = "C16|%s|%s" % (rule, e.get("s", "?"))
+        groups.setdefault(sig, []).append((e, diag))
+    for sig, items in sorted(groups.items()):
+        # one replay file per signature: the plan lines of (at most 20 of) the rejected cases
+        plan = [plan_of_line(e) for e, _ in items[:20]]
+        name = re.sub(r"[^A-Za-z0-9_.-]", "_", "viol_%s_%s.plan" % (mode, sig[4:]))
+        rp = vlib.save_replay(PID, name, "# mode %s\n# seed %d\n%s\n" % (mode, seed, "\n".join(x for x in plan if x)))
+        e, diag = items[0]
+        v.violation(sig, rp, "%d rejected case(s); first: %s %s" % (len(items), e.get("id", "?"), diag[:520]))
     return tv
 
 
@@ -270,6 +280,8 @@ def run(tier, replay=None):
     run_mc(v, "loaded_fallthrough", "loaded", "fallthrough", T["loaded"], T["maxtrials"], expect_violation=True)
     run_mc(v, "vose", "vose", "intended", T["vose"], T["maxtrials"])
     run_mc(v, "vose_tol", "vose", "intended", T["vose_tol"], T["maxtrials"])
+    run_mc(v, "aliaspos", "aliaspos", "intended", T["aliaspos"], T["maxtrials"])
+    run_mc(v, "aliaspos_reuse", "aliaspos", "reuse", T["aliaspos"], T["maxtrials"], expect_violation=True)
     run_mc(v, "dice", "dice", "intended", T["loaded"], T["maxtrials"])
     run_mc(v, "trials", "trials", "intended", T["loaded"], T["maxtrials"])
     # 2. cases: well-formedness + export
